@@ -8,8 +8,12 @@ package container
 //@ func ParseRIFFHeader
 //@   property C05 C17
 //
+//@ pure func le32(b []byte, i int) uint32 = uint32(b[i]) | uint32(b[i+1])<<8 | uint32(b[i+2])<<16 | uint32(b[i+3])<<24
+//
 //@ func ReadChunkHeader
 //@   property C05 C17
+//@   modifies nothing
+//@   ensures err == nil ==> len(data) >= 8 && fourcc == le32(data, 0) && payloadSize == le32(data, 4) && payloadSize <= MaxChunkPayload
 //
 //@ func NewParser
 //@   property C05 C16
@@ -20,9 +24,15 @@ package container
 //@   property C05 C17
 //@   requires p != nil
 //
+// C17: a simple-format file is accepted only if the whole padded image chunk
+// lies inside the buffer, and the frame payload is exactly the declared bytes.
 //@ func (p *Parser) parseSingleImage
 //@   property C05 C17
-//@   requires p != nil
+//@   requires p != nil && len(buf) >= 8
+//@   modifies *
+//@   ensures result == nil ==> 8 + uint64(le32(buf, 4)) + uint64(le32(buf, 4) & 1) <= uint64(len(buf))
+//@   ensures result == nil ==> len(p.frames) == old(len(p.frames)) + 1
+//@   ensures result == nil ==> len(p.frames[len(p.frames)-1].Payload) == int(le32(buf, 4)) && base(p.frames[len(p.frames)-1].Payload) == base(buf) && offset(p.frames[len(p.frames)-1].Payload) == offset(buf) + 8
 //
 //@ func (p *Parser) parseVP8X
 //@   property C05 C17
